@@ -278,6 +278,11 @@ class Variable:
     def bins(self):
         return self._bins
 
+    @property
+    def aligned(self):
+        a = getattr(self, '_aligned', True)
+        return a if isinstance(a, bool) else bool(a)
+
     def __len__(self):
         if not self.dims:
             raise TypeError('len() of scalar variable')
